@@ -20,7 +20,7 @@ THEOREMS = ['C12R_repr_cannot_escape', 'C12R_repr_cannot_escape_unconditional_re
             'C12R_repr_cannot_escape_short', 'C12R_repr_cannot_escape_before', 'C12R_repr_prefix_free',
             'C12R_repr_no_newline', 'C12R_repr_no_control', 'C12R_repr_output_chars',
             'C12R_repr_ascii_when_nothing_printable', 'C12R_repr_delimited', 'C12R_quote_choice',
-            'C12R_lex_consumes_prefix']
+            'C12R_lex_consumes_prefix', 'C12R_lex_literal_shape', 'C12R_lex_one_line']
 RULE = ('repr cases: strings of length 0-300 from 12 profiles (plain ASCII, quote-heavy, only one kind of quote, '
         'backslash-heavy, control characters, Latin-1, BMP incl. U+0085/2028/2029/combining/format/private-use/'
         'noncharacters, astral, lone surrogates, mixed, adversarial fragments such as quote-paren, backslash-quote, '
@@ -76,9 +76,9 @@ def builtin_corpus():
 def gen(rng, tier):
     quick = tier == 'quick'
     cases = []
-    n_repr = 2200 if quick else 30000
-    n_lex = 1400 if quick else 20000
-    n_mut = 400 if quick else 6000
+    n_repr = 2200 if quick else 20000
+    n_lex = 1400 if quick else 14000
+    n_mut = 400 if quick else 4000
     for _ in range(n_repr):
         prof, s = P.rand_string(rng)
         cases.append(_repr_case(s, P.rand_rest(rng), profile=prof))
